@@ -43,6 +43,37 @@ def run(ctx, F):
                     cmps.append((i, st[2][1], which, l))
     ne = [c for c in cmps if c[1] == "Ne"]
     eq = [c for c in cmps if c[1] == "Eq"]
+    if not cmps:
+        # the predicate "marked with either epoch" factored into a local closure |mark| mark == unavail_state || mark == current_state, used by both loops
+        from .bitiso import upvar_tree
+        pred = None
+        for cl in closures_of(F, f):
+            rows = [(show(simp(t)), [(show(simp(p.tree)), p.val) for p in g]) for b, t, g in ret_table(cl)]
+            m1 = [r for r in rows if r[0] == "True" and len(r[1]) == 1 and re.match(r"^\(arg2 Eq upvar\((\w+)\)\)$", r[1][0][0]) and r[1][0][1] is True]
+            m2 = [r for r in rows if re.match(r"^\(arg2 Eq upvar\((\w+)\)\)$", r[0]) and len(r[1]) == 1 and r[1][0][1] is False]
+            if len(rows) == 2 and len(m1) == 1 and len(m2) == 1:
+                ups = {re.match(r"^\(arg2 Eq upvar\((\w+)\)\)$", m1[0][1][0][0]).group(1), re.match(r"^\(arg2 Eq upvar\((\w+)\)\)$", m2[0][0]).group(1)}
+                vals = set()
+                for u in ups:
+                    _, ut = upvar_tree(F, cl, u)
+                    vals.add("unavail" if ut is not None and "line_unavail_state" in show(simp(ut)) else "current" if ut is not None and "line_mark_state" in show(simp(ut)) else "?")
+                if vals == {"unavail", "current"}:
+                    pred = cl
+        if pred is not None:
+            incs = []
+            for i, b in enumerate(f.blocks):
+                if i not in f.cfg.live:
+                    continue
+                for j, st in enumerate(b["s"]):
+                    if st[0] == "=" and len(st[1]) == 1 and st[2][0] == "bin" and st[2][1] in ("Add", "AddUnchecked", "AddWithOverflow") and show(simp(f.flow.rvalue_tree(st[2], i, j))).endswith(" Add 1)"):
+                        gs = [(show(simp(p.tree)), p.val) for p in guards(f, i)]
+                        pv = [v for s_, v in gs if short(pred.q).split("::")[-1] in s_ and "GET" not in s_ and "line_mark_table" in s_]
+                        incs.append((i, pv[-1] if pv else None))
+            incs.sort(key=lambda x: (0 if all(f.cfg.dominates(x[0], y[0]) or x[0] == y[0] for y in incs) else 1))
+            if len(incs) == 2 and incs[0][1] is True and incs[1][1] is False:
+                # loop 1 advances while the line is unavailable (stops at the first line with neither epoch); loop 2 advances while it is not
+                ne = [(0, "Ne", "current", "pred"), (0, "Ne", "unavail", "pred")]
+                eq = [(0, "Eq", "current", "pred"), (0, "Eq", "unavail", "pred")]
     ctx.judge(sorted(c[2] for c in ne) == ["current", "unavail"] and len({c[3] for c in ne}) == 1, "C34.hole-predicate", "a hole starts at the first line marked with neither epoch",
               expected="mark != unavail_state && mark != current_state on the same entry", found=str([(c[1], c[2]) for c in ne]), where=where(f), key="C34.hole-predicate|start")
     ctx.judge(sorted(c[2] for c in eq) == ["current", "unavail"] and len({c[3] for c in eq}) == 1, "C34.hole-predicate", "a hole ends at the first line marked with either epoch",
